@@ -484,6 +484,8 @@ fn run_fault(b: &Behaviour, names: &Names, max_points: usize, rng: &mut Rng, out
                     note["phase"] = json!("gets");
                     pend.set(&note);
                     ret["gets"] = read_all(&h, names);
+                    // the private state and the files, for the mechanism-level validation of the error paths
+                    ret["st"] = full_state(&h, &dir, names);
                     let _ = shim::take_calls();
                 }
                 out.emit(&ret);
